@@ -422,7 +422,9 @@ class FileSystemStoreBackend(StoreBackendBase, StoreBackendMixin):
         items = []
 
         for dirpath, _, filenames in os.walk(self.location):
-            is_cache_hash_dir = re.match("[a-f0-9]{32}", os.path.basename(dirpath))
+            is_cache_hash_dir = re.fullmatch(
+                "[a-f0-9]{32}", os.path.basename(dirpath)
+            )
 
             if is_cache_hash_dir:
                 output_filename = os.path.join(dirpath, "output.pkl")
